@@ -10,6 +10,10 @@ import RelicVerif.Lemmas.Blake2s
 import RelicVerif.Lemmas.Aes
 import RelicVerif.Lemmas.AesTables
 import RelicVerif.Gen.MdConsts
+import RelicVerif.Lemmas.RijndaelEnc
+import RelicVerif.Lemmas.RijndaelDec
+import RelicVerif.Lemmas.RijndaelKey
+import RelicVerif.Lemmas.AesCbc
 
 namespace Relic.Props.C14
 open Relic.Spec Relic.Model Relic.Lemmas.Md
@@ -306,6 +310,62 @@ theorem aes_table_round_conforms (x0 x1 x2 x3 x4 x5 x6 x7 x8 x9 x10 x11 x12 x13 
        (Rijndael.getu32 r 0, Rijndael.getu32 r 4, Rijndael.getu32 r 8, Rijndael.getu32 r 12)) :=
   Relic.Lemmas.AesTables.encHalf_spec x0 x1 x2 x3 x4 x5 x6 x7 x8 x9 x10 x11 x12 x13 x14 x15 k0 k1 k2 k3 k4 k5 k6 k7 k8 k9 k10 k11 k12 k13 k14 k15
     rk o h0 h1 h2 h3
+
+/-- rijndaelEncrypt (the table code: GETU32 ^ rk, the `r = Nr >> 1` loop over Te0..Te3 with its early break, the last round through
+    Te4 and the byte masks, PUTU32) on a word array that holds the round keys `ks` big-endian computes the FIPS 197 Cipher with
+    these round keys — for every state, every round-key list, Nr = 10 / 12 / 14 -/
+theorem rijndael_encrypt_conforms (rk : Array UInt32) (ks : List Bytes) (nr : Nat) (hok : Relic.Lemmas.Rijndael.RkOK rk ks)
+    (hlen : ks.length = nr + 1) (hnr : nr = 10 ∨ nr = 12 ∨ nr = 14) (hk : ∀ k ∈ ks, k.length = 16) (pt : Bytes)
+    (hpt : pt.length = 16) : Rijndael.encrypt rk nr pt = Aes.cipher ks pt :=
+  Relic.Lemmas.Rijndael.encrypt_eq rk ks nr hok hlen hnr hk pt hpt
+
+/-- rijndaelDecrypt (Td0..Td3 loop, Td4 last round) on a word array that holds the decryption round keys `dk` in reverse order (as
+    rijndaelKeySetupDec leaves them) computes the FIPS 197 §5.3.5 equivalent inverse cipher -/
+theorem rijndael_decrypt_conforms (rk : Array UInt32) (dk : List Bytes) (nr : Nat)
+    (hok : Relic.Lemmas.Rijndael.RkOK rk dk.reverse) (hlen : dk.length = nr + 1) (hnr : nr = 10 ∨ nr = 12 ∨ nr = 14)
+    (hk : ∀ k ∈ dk, k.length = 16) (ct : Bytes) (hct : ct.length = 16) :
+    Rijndael.decrypt rk nr ct = Aes.eqInvCipher dk ct :=
+  Relic.Lemmas.Rijndael.Dec.decrypt_eq rk dk nr hok hlen hnr hk ct hct
+
+/-- FIPS 197 §5.3.5: the equivalent inverse cipher with the InvMixColumns-transformed key schedule is InvCipher, and inverts Cipher -/
+theorem aes_eqInvCipher_conforms (key b : Bytes) (hk : validKey key) (hb : b.length = 16) :
+    Aes.eqInvCipher (Aes.eqInvKeys (Aes.keyExpansion key)) b = Aes.invCipher (Aes.keyExpansion key) b ∧
+    Aes.eqInvCipher (Aes.eqInvKeys (Aes.keyExpansion key)) (Aes.cipher (Aes.keyExpansion key) b) = b :=
+  ⟨Relic.Lemmas.AesEqInv.eqInvCipher_keyExpansion key b hk hb, Relic.Lemmas.AesEqInv.eqInvCipher_cipher key b hk hb⟩
+
+/-- rijndaelKeySetupEnc (the three unrolled key schedules with their moving pointer, SubWord / RotWord through Te4 and byte masks, the
+    rcon table) writes the FIPS 197 expanded key, big-endian, for every key of 16 / 24 / 32 bytes -/
+theorem rijndael_keySetupEnc_conforms (key : Bytes) (hk : validKey key) :
+    ∃ rk, Rijndael.keySetupEnc key = some (rk, key.length / 4 + 6) ∧
+      Relic.Lemmas.Rijndael.RkOK rk (Aes.keyExpansion key) ∧ (Aes.keyExpansion key).length = key.length / 4 + 6 + 1 :=
+  Relic.Lemmas.Rijndael.Key.keySetupEnc_ok key hk
+
+/-- AES block encryption of the library (rijndaelKeySetupEnc + rijndaelEncrypt, table-driven) = FIPS 197 Cipher under the
+    FIPS 197 key expansion: every key size, every key, every block -/
+theorem rijndael_aesE_conforms (key blk : Bytes) (hk : validKey key) (hb : blk.length = 16) :
+    Rijndael.aesE key blk = Aes.cipher (Aes.keyExpansion key) blk := by
+  obtain ⟨rk, hks, hok, hlen⟩ := Relic.Lemmas.Rijndael.Key.keySetupEnc_ok key hk
+  unfold Rijndael.aesE
+  rw [hks]
+  exact Relic.Lemmas.Rijndael.encrypt_eq rk (Aes.keyExpansion key) (key.length / 4 + 6) hok hlen
+    (by unfold validKey at hk; omega) (Relic.Lemmas.Aes.keyExpansion_length key hk).2 blk hb
+
+/-- bc_aes_cbc_enc with the table-driven block cipher (the model the driver executes) = SP 800-38A CBC ∘ PKCS#7 over the FIPS 197
+    cipher, for every plaintext length incl. 0 and multiples of the block size -/
+theorem aes_cbc_enc_tables_conforms (key iv m : Bytes) (cap : Nat) (hk : validKey key) (hiv : iv.length = 16)
+    (hcap : m.length + (16 - m.length % 16) ≤ cap) :
+    Bc.bcAesCbcEnc Rijndael.aesE cap m key iv = some (Aes.aesCbcPkcs7Enc key iv m) := by
+  have hEq : ∀ b : Bytes, b.length = 16 → Rijndael.aesE key b = Aes.cipher (Aes.keyExpansion key) b :=
+    fun b hb => rijndael_aesE_conforms key b hk hb
+  have hE : ∀ b : Bytes, b.length = 16 → (Rijndael.aesE key b).length = 16 :=
+    fun b hb => by rw [hEq b hb]; exact Relic.Lemmas.Aes.cipher_length key b hk hb
+  unfold Bc.bcAesCbcEnc
+  rw [if_neg (by omega), if_neg (by unfold validKey at hk; omega)]
+  rw [padEncrypt_eq (Rijndael.aesE key) hE iv hiv m]
+  obtain ⟨hP16, _⟩ := pkcs7Pad_length m
+  obtain ⟨_, hB16⟩ := flatten_chunks16 ((Aes.pkcs7Pad m).length / 16 + 1) (Aes.pkcs7Pad m) (by omega) hP16
+  rw [Relic.Lemmas.AesCbc.cbcEnc_congr _ _ hEq hE iv hiv _ hB16]
+  rfl
 
 /-- the constant tables of the hash implementations, as extracted from the C text on every run (Gen/MdConsts.lean: K[64] and
     the initial values of sha224-256.c, K[80] and the initial values of sha384-512.c, blake2s_IV and blake2s_sigma of
